@@ -28,6 +28,17 @@ def spec():
     return json.load(open(os.path.join(VERIF, "spec", "wiring.json")))
 
 
+FORWARD = {}  # helper nonterminal -> the symbol it forwards unchanged (computed per analysis)
+
+
+def resolve_alias(name):
+    seen = set()
+    while name in FORWARD and name not in seen:
+        seen.add(name)
+        name = FORWARD[name]
+    return name
+
+
 def find_sym(symbols, role):
     m = re.match(r"(.*)#(\d+)$", role)
     k = None
@@ -35,6 +46,9 @@ def find_sym(symbols, role):
     if m:
         name, k = m.group(1), int(m.group(2))
     idx = [i for i, s in enumerate(symbols) if s["name"] == name and s["kind"] not in LOOK]
+    if not idx:
+        # a helper nonterminal that only forwards the named symbol stands for it
+        idx = [i for i, s in enumerate(symbols) if resolve_alias(s["name"]) == name and s["kind"] not in LOOK]
     if not idx:
         # helper groups: ignore position captures and selection brackets inside the group's name
         norm = lambda x: re.sub(r"<@[LR]>|[<> ]", "", x)
@@ -118,6 +132,28 @@ def analyse(ctx):
     def add(aspect, key, a, ok, msg, sample=None, witness=None):
         obls.append(Obl(aspect, key, a.where() if a is not None else None, ok, msg, sample, witness))
 
+    # pre-pass: helper nonterminals that forward a single symbol unchanged are transparent
+    FORWARD.clear()
+    forwarders = set()
+    per_nt = {}
+    for a in acts:
+        per_nt.setdefault(a.nt, []).append(a)
+    known = set(prods) | set(sp["wrappers"]) | set(sp["recovery"]) | set(k.split("/")[0] for k in prods)
+    for nt, lst in per_nt.items():
+        if nt in known or re.sub(r"<.*>$", "", nt) in known or len(lst) != 1:
+            continue
+        a = lst[0]
+        real = [j for j, sy in enumerate(a.symbols) if sy["kind"] not in LOOK]
+        if len(real) != 1:
+            continue
+        try:
+            ps = a.run(facts)
+        except Unsupported:
+            continue
+        if len(ps) == 1 and not ps[0].effects and lab(ps[0].ret) == a.labels[real[0]]:
+            FORWARD[nt] = a.symbols[real[0]]["name"]
+            forwarders.add(nt)
+
     for a in acts:
         try:
             paths = a.run(facts, opaque_fns=["ast::Range::new", "ast::Position::new", "javadoc::get_javadoc", "diagnostic::Diagnostic::from_error_recovery"])
@@ -179,6 +215,9 @@ def analyse(ctx):
             if vs is not None:
                 check_value_special(a, paths, vs, add)
                 continue
+        if entry is None and a.nt in forwarders:
+            add("value", "wiring|%s|forwarder" % key0, a, True, "%s only forwards %s" % (a.nt, FORWARD[a.nt]), {"production": key0, "forwards": FORWARD[a.nt]})
+            continue
         if entry is None:
             add("value", "wiring|%s|no-spec" % key0, a, False, "production %s -> %s has no entry in spec/wiring.json: what it stores in the tree is unspecified (fail closed)" % (a.nt, " ".join(names)))
             continue
